@@ -157,6 +157,18 @@ class Sym:
         r = self._call_value(e, env, 9, e)
         if len(r) == 1 and r[0][0] == 'ret':
           return r[0][1]
+      if isinstance(e.func, ast.Name) and e.func.id not in env and \
+          e.func.id in self.mod.functions and getattr(self, '_vdepth', 0) < 3:
+        # a helper of this module: its value when every path agrees on it
+        self._vdepth = getattr(self, '_vdepth', 0) + 1
+        try:
+          r = self._call_value(e, env, 1, e)
+        finally:
+          self._vdepth -= 1
+        vals = [o[1] for o in r if o[0] == 'ret']
+        if vals and len(vals) == len([o for o in r if o[0] != 'raise']) and all(
+            v == vals[0] for v in vals) and vals[0][0] in ('func', 'const', 'sym', 'UNSPEC'):
+          return vals[0]
       return ('expr', core.norm(e))
     return ('expr', core.norm(e))
 
@@ -612,12 +624,71 @@ def check(model, rep, tier):
         bad.append(core.norm(t)[:60])
   rets = [r for r in core.walk_no_nested(ef.node) if isinstance(r, ast.Return)]
   uses_frame = all(k in core.norm(ef.node) for k in ('.f_globals', '.f_locals'))
-  rep.check(not bad and uses_frame and len(rets) == 1, 'BI-FRAME',
+  # what is passed to eval for each argument count, evaluated concretely on the
+  # count (all selections are comparisons of len(args) with constants)
+  by_count = {}
+  count_ok = True
+  fvar = None
+  for c in ast.walk(ef.node):
+    if isinstance(c, ast.Call) and core.dotted(c.func) == '_find_originating_frame':
+      asg = [a for a in ast.walk(ef.node) if isinstance(a, ast.Assign) and a.value is c
+             and isinstance(a.targets[0], ast.Name)]
+      fvar = asg[0].targets[0].id if asg else None
+  for n_args in (1, 2, 3):
+    def conc(e, n_args=n_args):
+      if isinstance(e, ast.Compare) and len(e.ops) == 1 and core.norm(e.left) == \
+          'len(%s)' % an and isinstance(e.comparators[0], ast.Constant):
+        k = e.comparators[0].value
+        op = type(e.ops[0])
+        v = {ast.Lt: n_args < k, ast.LtE: n_args <= k, ast.Eq: n_args == k,
+             ast.Gt: n_args > k, ast.GtE: n_args >= k, ast.NotEq: n_args != k}.get(op)
+        if v is not None:
+          return formula.TRUE if v else formula.FALSE
+      return None
+
+    def pick(e):
+      while isinstance(e, ast.IfExp):
+        f = formula.bool_formula(e.test, conc)
+        if f.atoms:
+          return None
+        e = e.body if f.fn({}) else e.orelse
+      return e
+    taken = [(f, v) for f, v in formula.return_cases(ef.node, conc)
+             if not f.atoms and f.fn({})]
+    if len(taken) != 1 or not isinstance(taken[0][1], ast.Call) or \
+        core.norm(taken[0][1].func) != ep[0] or taken[0][1].keywords:
+      count_ok = False
+      break
+    call = taken[0][1]
+    ret_stmt = [r for r in rets if any(x is call for x in ast.walk(r))]
+    argv = list(call.args)
+    if len(argv) == 1 and isinstance(argv[0], ast.Starred):
+      tup = tpl.expand(ef, argv[0].value, ret_stmt[0] if ret_stmt else call)
+      if not isinstance(tup, ast.Tuple):
+        count_ok = False
+        break
+      argv = list(tup.elts)
+    vals = [pick(a) for a in argv]
+    if any(v is None for v in vals) or len(vals) != 3:
+      count_ok = False
+      break
+    at = ret_stmt[0] if ret_stmt else call
+    got = [tpl.xnorm(ef, v, at) if any(v is x for x in ast.walk(at)) else core.norm(v)
+           for v in vals]
+    by_count[n_args] = got
+    fx = tpl.xnorm(ef, ast.Name(id=fvar, ctx=ast.Load()), at) if fvar else '?'
+    want = ['%s[0]' % an,
+            '%s[1]' % an if n_args >= 2 else '%s.f_globals' % fx,
+            '%s[2]' % an if n_args >= 3 else '%s.f_locals' % fx]
+    if got != want:
+      count_ok = False
+  rep.check(not bad and uses_frame and count_ok, 'BI-FRAME',
             '%s:namespaces-default-by-count' % ef.site,
             'eval must use the globals / locals the caller passed, whatever their '
             'value (an empty dict is the usual way to isolate an evaluation), and '
             'fall back to the originating frame only for omitted arguments',
-            {'value_dependent_defaulting': bad, 'selections': n_sel},
+            {'value_dependent_defaulting': bad, 'selections': n_sel,
+             'passed_by_argument_count': by_count},
             line=ef.node.lineno, witness="eval('SECRET', {}) must raise NameError")
   # zero-argument super: class from the frame's __class__ cell, instance from
   # the frame's first argument (PEP 3135)
